@@ -181,22 +181,27 @@ Fixpoint oldest_idx (l : list exemplar) (i ot otIdx : Z) : Z * Z :=
 Definition older_of_pair (l : list exemplar) (i : Z) : Z :=
   if Z.ltb (snd (nth_ex l i)) (snd (nth_ex l (i - 1))) then i else i - 1.
 
-Fixpoint zseq (lo : Z) (n : nat) : list Z :=
-  match n with O => [] | S n' => lo :: zseq (lo + 1) n' end.
-
-(* every index the log-distance comparisons (math.Log, not computable bit-exactly) can select *)
-Definition admissible_ridx (l : list exemplar) (nIdx : Z) : list Z :=
-  map (older_of_pair l) (zseq 1 (length l - 1))
-  ++ (if Z.ltb 0 nIdx then [nIdx - 1] else [])
-  ++ (if Z.ltb nIdx (zlen l) then [nIdx] else []).
-
 Definition replace_ex (l : list exemplar) (rIdx nIdx : Z) (e : exemplar) : list exemplar :=
   if Z.eqb rIdx nIdx then take nIdx l ++ [e] ++ drop (nIdx + 1) l
   else if Z.ltb rIdx nIdx then take rIdx l ++ drop (rIdx + 1) (take nIdx l) ++ [e] ++ drop nIdx l
   else take nIdx l ++ [e] ++ drop nIdx (take rIdx l) ++ drop (rIdx + 1) l.
 
-(* addExemplar; `oracle` is the index the real code replaced (observed by the driver), used
-   only on the path that depends on math.Log and only if it is one the code can select *)
+(* The three decisions of addExemplar that depend on math.Log (not computable bit-exactly in Coq)
+   are an ORACLE input, oracle = 4*p + 2*b1 + b2:
+     p  = the i for which the loop 1786-1816 last assigned md (the closest adjacent pair (i-1, i)),
+     b1 = outcome of `diff < md` at 1837 (new value closer to its left neighbour),
+     b2 = outcome of `diff < md` at 1849 (new value closer to its right neighbour).
+   Everything else (capacity, insertion index, oldest timestamp, TTL expiry, which member of the
+   pair is older, the slice surgery) is transcribed. *)
+Definition choose_ridx (l : list exemplar) (nIdx oracle : Z) : Z :=
+  let p0 := oracle / 4 in
+  let p := if Z.leb 1 p0 && Z.ltb p0 (zlen l) then p0 else 1 in
+  let b1 := Z.eqb ((oracle / 2) mod 2) 1 in
+  let b2 := Z.eqb (oracle mod 2) 1 in
+  let r0 := older_of_pair l p in
+  let r1 := if Z.ltb 0 nIdx && b1 then nIdx - 1 else r0 in
+  if Z.ltb nIdx (zlen l) && b2 then nIdx else r1.
+
 Definition add_exemplar (g : config) (l : list exemplar) (e : exemplar) (oracle : Z) : list exemplar :=
   if ex_disabled g then l
   else if Z.ltb (zlen l) (ex_cap g) then
@@ -208,8 +213,7 @@ Definition add_exemplar (g : config) (l : list exemplar) (e : exemplar) (oracle 
     let nIdx := first_idx (fun x => fle (fst e) (fst x)) l 0 in
     let rIdx :=
       if negb (Z.eqb otIdx (-1)) && Z.ltb (ex_ttl g) (snd e - ot) then otIdx
-      else if existsb (Z.eqb oracle) (admissible_ridx l nIdx) then oracle
-      else older_of_pair l 1 in
+      else choose_ridx l nIdx oracle in
     replace_ex l rIdx nIdx e.
 
 (* ---- the histogram ---- *)
@@ -421,7 +425,7 @@ Definition write (h : hist) : option (hist * wout) :=
 (* ---- operations ---- *)
 Inductive op :=
 | OObs (v : f64)
-| OObsEx (v : f64) (oracle : Z)     (* ObserveWithExemplar; oracle: see add_exemplar *)
+| OObsEx (v : f64) (oracle : Z)     (* ObserveWithExemplar; oracle: see choose_ridx *)
 | OWrite
 | OAdvance (d : Z)                  (* the injected clock moves on by d ns *)
 | OFire.                            (* the timer callback captured by afterFunc runs (if one is pending) *)
